@@ -204,6 +204,11 @@ static int parse_ifdef_expression(
   int n1 = 0;
   int n;
 
+  // Called with state 1 to parse the operands of a tighter binding operator.
+  // Such a call only looks at a closing parenthesis, whoever opened it
+  // consumes it.
+  const bool is_precedence_call = (state == 1);
+
   oper.operation = OPER_NONE;
   oper.precedence = precedence;
   n = *num;
@@ -220,13 +225,11 @@ printf("debug> #if: %d) %s   n=%d paren_count=%d precedence=%d state=%d\n", toke
     {
       tokens_push(asm_context, token, token_type);
 
-#if 0
-      if (paren_count != 0)
+      if (paren_count != 0 && is_precedence_call == false)
       {
         print_error(asm_context, "Unbalanced parentheses.");
         return -1;
       }
-#endif
 
       if (state != 1)
       {
@@ -362,6 +365,11 @@ printf("debug> #if: parse_defined()=%d\n", n);
 
       *num = n;
 
+      if (is_precedence_call)
+      {
+        tokens_push(asm_context, token, token_type);
+      }
+
       return 0;
     }
 
@@ -391,7 +399,17 @@ printf("debug> #if get_operator() token=%s operation=%d precedence=%d\n", token,
         else
       if (next_operator.precedence < precedence)
       {
+        // A looser operator ends this call: finish what is pending here
+        // and hand the value back.
         tokens_push(asm_context, token, token_type);
+
+        if (oper.operation != OPER_NONE)
+        {
+          n = eval_operation(oper.operation, n1, n);
+          if (n == -1) { return -1; }
+        }
+
+        *num = n;
         return 0;
       }
         else
@@ -440,6 +458,7 @@ printf("debug> parse_ifdef_expression() result is %d\n", num);
   if (token_type != TOKEN_EOL && token_type != TOKEN_EOF)
   {
     print_error_unexp(asm_context, token);
+    return -1;
   }
     else
   {
